@@ -119,6 +119,11 @@ def observed_widths(text, via):
 # ----------------------------------------------------------------------------- dictionaries with keys that are not text
 
 
+def kind_flags(kind):
+    """(type(data) is dict, isinstance(data, dict), isinstance(data, MutableMapping)) of a record handed over as `kind`."""
+    return [kind == "dict", kind in ("dict", "ordered", "default", "counter"), kind in ("dict", "ordered", "default", "counter", "userdict", "chainmap")]
+
+
 def key_id(k):
     """What a dictionary compares a key with when a field name (an exact str) is looked up: the plain string the key is
     equal to (same hash, `==`), or None when it is equal to no string."""
@@ -235,7 +240,7 @@ def judge_seq(case, obs, model_lines=None, hit=None):
                 want = [data.get(f) for f in cl["fields"]]
                 key_classes(data, cl["fields"], hit)
                 if model_lines is not None:
-                    model_lines.append((i, "C10 rownew " + wire.line(cl["fields"], False, st.get("dict_kind", "dict") == "dict", model_items(data)), ob))
+                    model_lines.append((i, "C10 rownew " + wire.line(cl["fields"], False, kind_flags(st.get("dict_kind", "dict")), model_items(data)), ob))
             else:
                 want = list(st["tuple"])
             hit("site:judged:row:" + (st.get("dict_kind", "dict") if has_dict(st) else "tuple"))
@@ -250,7 +255,7 @@ def judge_seq(case, obs, model_lines=None, hit=None):
                 want = [data.get(f) for f in fr["names"]]
                 key_classes(data, fr["names"], hit)
                 if model_lines is not None:
-                    model_lines.append((i, "C10 rowappend " + wire.line(fr["names"], st.get("dict_kind", "dict") == "dict", model_items(data)), ob))
+                    model_lines.append((i, "C10 rowappend " + wire.line(fr["names"], kind_flags(st.get("dict_kind", "dict")), model_items(data)), ob))
             else:
                 want = list(st["tuple"])
             hit("site:judged:append")
@@ -504,13 +509,16 @@ def _dict_for(rng, fields, extra):
     return {k: rng.choice([0, 1, "v", None, 2.5, "é", True, -3, "longer value", [1, "unhashable"], ""]) for k in keys}
 
 
-def _dict_kind(rng, st):
-    """Sometimes hand the dictionary over as a standard dict subclass."""
+def _dict_kind(rng, st, mappings=True):
+    """Sometimes hand the dictionary over as a standard dict subclass, or (`mappings`) as a Mapping that is no dict:
+    UserDict, ChainMap, MappingProxyType, an instance of a Mapping class of the caller's own."""
     r = rng.random()
     if r < 0.12:
         st["dict_kind"] = "ordered"
     elif r < 0.24:
         st["dict_kind"] = "default"
+    elif mappings and r < 0.44:
+        st["dict_kind"] = rng.choice(["userdict", "chainmap", "proxy", "custom"])
     return st
 
 
@@ -785,7 +793,7 @@ def keys_seq(rng, tag):
         if rng.random() < 0.5:
             # use -> mutate -> use again: the same dictionary object, edited between two calls
             did = new("d")
-            steps.append(_dict_kind(rng, {"op": "row", "cls": c, "items": _items_for(rng, fields, extra), "dict_id": did}))
+            steps.append(_dict_kind(rng, {"op": "row", "cls": c, "items": _items_for(rng, fields, extra), "dict_id": did}, mappings=False))
             edits = [[k, "edited"] for k in _items_for(rng, fields, extra)[:2] for k in [k[0]]]
             steps.append({"op": "row", "cls": c, "items": [], "dict_id": did, "set": edits or [[fields[0], "edited"]],
                           "del": [fields[-1]] if rng.random() < 0.4 else []})
@@ -895,12 +903,19 @@ def seeded_corpus():
             {"op": "row", "cls": "cK", "items": [[_K("bool", True), "the flag"], [_K("none"), "nothing"], [_K("bytes", "61"), "bytes"],
                                                  [_K("strother", "a"), "another a"], [_K("tuple", [_K("int", 1), _K("int", 2)]), "a pair"]]},
             {"op": "row", "cls": "cK", "items": [[_K("strsame", "a"), "found: equal to the text"], ["None", "text"], [_K("none"), "null key"]], "dict_kind": "ordered"},
+            {"op": "row", "cls": "cK", "items": [["a", "in a UserDict"], [_K("int", 1), "number one"], ["1", "text one"]], "dict_kind": "userdict"},
+            {"op": "row", "cls": "cK", "items": [[_K("none"), "null key"], ["None", "text"], ["a", "in a ChainMap"]], "dict_kind": "chainmap"},
+            {"op": "row", "cls": "cK", "items": [[_K("bool", True), "the flag"], ["a", "behind a proxy"]], "dict_kind": "proxy"},
+            {"op": "row", "cls": "cK", "items": [[_K("strother", "a"), "another a"], ["1", "in a Mapping of the caller's"]], "dict_kind": "custom"},
             {"op": "row", "cls": "cK", "items": [["a", "first"], ["1", "one"]], "dict_id": "dK"},
             {"op": "row", "cls": "cK", "items": [], "dict_id": "dK", "set": [["a", "second"], [_K("int", 1), "number"]]},
             {"op": "row", "cls": "cK", "items": [], "dict_id": "dK", "del": ["a"], "set": [["True", "text flag"]]},
             {"op": "frame", "id": "fK", "names": ["1", "a"], "rows": [], "lazy": False},
             {"op": "append", "frame": "fK", "items": [[_K("int", 1), "number one"], ["a", "x"]]},
             {"op": "append", "frame": "fK", "items": [["1", "text one"], [_K("int", 1), "number one"]], "dict_kind": "ordered"},
+            {"op": "append", "frame": "fK", "items": [[_K("int", 1), "number one"], ["a", "UserDict"]], "dict_kind": "userdict"},
+            {"op": "append", "frame": "fK", "items": [["1", "text one"], ["a", "proxy"]], "dict_kind": "proxy"},
+            {"op": "append", "frame": "fK", "items": [["a", "custom"], [_K("int", 1), "n"]], "dict_kind": "custom"},
             {"op": "collect", "frame": "fK", "cols": ["1"], "ckind": "single"},
             {"op": "dicts", "id": "fN", "dicts": [{"__items__": [[_K("int", 1), "a"], ["n", 0]]}, {"__items__": [[_K("int", 1), "b"]]}]},
             {"op": "append", "frame": "fN", "items": [[_K("int", 1), "c"], ["n", 1]]},
